@@ -957,8 +957,8 @@ def suite_matrix(tier, seed):
         # heterogeneous pair (different size_types: swap2 has separate pre-C++17 / C++17 code for the size words): the full
         # harness needs C++17, so this family covers the {c++17, c++20} x {NDEBUG, assertions} x {-O0, -O2} cells
         hcfg = ImplCfg('c16h_s2u8_v', 'TR', 'amcled', [('small', 2, 'u8'), ('vector', 0, 'u32')])
-        hparams = dict(Vals=[1, 2], MaxLen=3, MaxCnt=1, Its=['ptr'], RLens=[0, 1], WalkLen=300, Alias=False,
-                       Ops='{"swap2", "ctorDefault", "ctorCountVal", "pushBack", "popBack", "clear", "reserve", "reserveBig", "shrinkToFit", "destroy"}')
+        hparams = dict(Vals=[1, 2], MaxLen=3, MaxCnt=1, Its=['ptr', 'input'], RLens=[0, 2], WalkLen=300, Alias=False,
+                       Ops='{"swap2", "ctorDefault", "ctorCountVal", "pushBack", "popBack", "clear", "reserve", "reserveBig", "shrinkToFit", "destroy", "insertRange"}')
         hmd, hinfo = vecpipe.mc_export(d, hcfg.model(), hparams, hcfg.name)
         models.append(hinfo)
         hcells = sorted(set((c[0], c[1], c[3], c[4]) for c in cells if c[1] in ('c++17', 'c++20')))
